@@ -164,9 +164,12 @@ theorem inv_congr (a b : FileSt) (h1 : a.names = b.names) (h2 : a.d2p = b.d2p) (
 
 /-- `Store.Push` keeps the invariant — for named and unnamed content, verified or not. -/
 theorem inv_push (c : StoreCfg) (st : FileSt) (d : SDesc) (good : Bool) (h : Inv st)
-    (forceCAS noOver rmFail : Bool := false) :
-    Inv (push c false st d good forceCAS noOver rmFail).1 := by
+    (forceCAS noOver rmFail inn : Bool := false) :
+    Inv (push c false st d good forceCAS noOver rmFail inn).1 := by
   unfold push
+  by_cases hi : inn = true ∧ d.name = none
+  · simp only [hi, and_self, if_true]; exact h
+  simp only [hi, if_false]
   cases hname : d.name with
   | none =>
     simp only
